@@ -43,6 +43,11 @@ CHECKS["C14"] = ("DESIGN §4 C14",
     "all operation histories up to the depth bound are executed on the real objects with primed caches; no hand-written expected values: the live object must agree with a new mesh + new model + new simulation carrying the same configuration and state",
     "trusted: the harness's record of parameters and conditions; the live coordinates and state are read through public getters; phase-field compares the displacement system only")
 
+CHECKS["C15"] = ("DESIGN §4 C15",
+    "explicit-state exploration, unmerged: for 10 simulation scenarios and 3 prefixes every sequence of {solve a/b, save iteration, folder ''/A/B, restore 0/last, read stored, Result(iter=0), replace mesh, Save+Load_Simu} up to depth 2 (quick) / 3 (thorough); invariants against the harness's own deep-copied snapshots after every operation",
+    "all operation histories up to the depth bound are executed on the real simulations (in-memory and on-disk iterations); the oracle is a list of snapshots taken through public getters at save time",
+    "trusted: deep copies taken by the harness; exact equality for stored entries, 1e-12 for restored fields; scratch folders under mkdtemp")
+
 PENDING_REASON = "not claimed yet: the bounded-exhaustive check for this property is designed (DESIGN.md §4) but not built in the committed tree"
 
 
